@@ -15,7 +15,7 @@
 
    Not modelled: `if (...) expand {...}` (is_expand), `$if` (is_macro). *)
 From Coq Require Import ZArith String List Bool.
-From JMCV Require Import Base.Dec MC.Syntax Model.Names Model.PrivAlloc.
+From JMCV Require Import Base.Dec MC.Syntax MC.Print Model.Names Model.PrivAlloc.
 Import ListNotations.
 Open Scope list_scope.
 
@@ -52,6 +52,23 @@ Definition single_if_code (nm : names) (c : cond) (body : list cmd) (aid : nat)
   : list cmd * list fdef :=
   let (x, fs) := arrow nm IF_ELSE body aid in
   (c_pre c ++ [merge1 (mods_of (c_tests c)) x], fs).
+
+(* add_custom_private_function(..., postcommands_after_return=True), as repaired by
+   fixes/C04-return-in-branch.patch: a `return` leaves the function it is written in, so a branch
+   body that contains the word `return` (or `$return`) in one of its lines — `return 1`,
+   `return fail`, `return run …`, `execute … run return …` — is stored in a function of its own and
+   the branch function only calls it; the flag post-command then runs whatever the body did.
+   The test is textual, on the lines as written (blank- and newline-separated words). *)
+Fixpoint split_words (s cur : string) : list string :=
+  match s with
+  | EmptyString => [cur]
+  | String c r =>
+    if (Ascii.eqb c (Ascii.ascii_of_nat 32) || Ascii.eqb c (Ascii.ascii_of_nat 10))%bool then cur :: split_words r EmptyString
+    else split_words r (cur ++ String c EmptyString)
+  end.
+Definition is_return_word (w : string) : bool := (String.eqb w "return" || String.eqb w "$return")%string.
+Definition line_can_return (c : cmd) : bool := existsb is_return_word (split_words (pr_cmd c) EmptyString).
+Definition can_return (body : list cmd) : bool := existsb line_can_return body.
 
 (* Case 2.  A branch whose body is wrapped by add_custom_private_function with the
    post-command `scoreboard players set __if_else__ <VAR> 1`: *)
